@@ -108,7 +108,7 @@ def run_all(exe, judge, lines, workdir, tag, budget):
     with cf.ThreadPoolExecutor(max_workers=n) as ex:
         futs = [ex.submit(judge_one, i, r[0], r[1]) for i, r in enumerate(results)]
         jouts = [f.result() for f in futs]
-    fails, undec, stat, cov, incidents = [], [], collections.Counter(), collections.Counter(), []
+    fails, undec, stat, cov, incidents, nontrivial = [], [], collections.Counter(), collections.Counter(), [], set()
     for (kept, obs, inc), (rc, out) in zip(results, jouts):
         incidents += inc
         got_stat = False
@@ -124,11 +124,13 @@ def run_all(exe, judge, lines, workdir, tag, budget):
                 for i in range(1, len(t) - 1, 2): stat[t[i]] += int(t[i + 1])
             elif l.startswith("COV "):
                 t = l.split(" "); cov[t[1]] += int(t[2])
+            elif l.startswith("NT "):
+                nontrivial.add(l.split(" ")[1])
             elif l.startswith("JUDGE-ERROR"):
                 raise RuntimeError("judge: " + l)
         if rc != 0 or not got_stat:
             raise RuntimeError("judge failed (rc=%s): %s" % (rc, out[-1500:]))
-    return dict(fails=fails, undecided=undec, stat=stat, cov=cov, incidents=incidents, byid=byid)
+    return dict(fails=fails, undecided=undec, stat=stat, cov=cov, incidents=incidents, byid=byid, nontrivial=nontrivial)
 
 
 # ------------------------------------------------------------------------------------------------
@@ -187,8 +189,8 @@ def run(chk):
                 "unbounded relaxation with fractional vertex, thin regions needing several branchings, objective parallel to a facet, dimension 0/1) "
                 "turned into a history by a shape (constructor + solve; constraints one by one with is_satisfiable() every k-th; solve / change objective, "
                 "mode, constraints, pricing / solve again; random interleaving of all mutators and queries), pricing rule cycling over the three values; "
-                "1-4 variables, coefficients in [-5,5]; a case is distinct by its text and non-trivial when the reference decided its final problem "
-                "(counted: distinct decided problems)")
+                "1-4 variables, coefficients in [-5,5]; a case is distinct by the text of its history and non-trivial when at least one of its queries "
+                "(solve / is_satisfiable / feasible_point / optimizing_point / optimal_value) was compared with a DECIDED reference answer")
     chk.trusted += ["Coq 8.16.1 kernel; vm_compute in MIP/MipExamples.v (closed computations only)",
                     "extraction (ExtrOcamlBasic only) of mip_ref / claim_ok / sat_claim_ok / feasible_b / step / apply_data into ocaml/gen/mip.ml; OCaml 4.13.1",
                     "hand-written glue: harness/run_mip.cc (prints what the library returns, its status keyword from ascii_dump, last_generator, OK()), "
@@ -240,7 +242,8 @@ def run(chk):
     for cid, c in list(out["byid"].items())[:3]:
         chk.samples.append(" ; ".join(c[:10]))
     for cid, c in out["byid"].items():
-        chk.nontrivial.add(" ".join(c[1:]))
+        if cid in out["nontrivial"]:
+            chk.nontrivial.add(" ".join(c[1:]))
     # failures, one per case
     # two groups per case, judged separately so that a complaint of OK() cannot hide a wrong answer
     per_case = collections.defaultdict(list)
